@@ -2,6 +2,7 @@ import Modbus.Driver.JudgePacket
 import Modbus.Driver.Regs
 import Modbus.Driver.Split
 import Modbus.Driver.Extract
+import Modbus.Driver.Client
 import Std.Data.HashSet
 import Std.Data.HashMap
 /-
@@ -39,7 +40,11 @@ def dispatch (prop : String) (ts : List String) : Option Family :=
       | none =>
         match parseExtractOp ts with
         | some op => some { modelOut := op.modelOut, kf := none, expect := op.judge prop, kind := "extract" }
-        | none => none
+        | none =>
+          match parseDoOp ts with
+          | some op => some { modelOut := op.modelOut, kf := op.kf prop, expect := op.judge prop,
+                              kind := "do:" ++ (ts.getD 1 "?") }
+          | none => none
 
 structure St where
   lines : Nat := 0
